@@ -398,7 +398,7 @@ Qed.
 
 (* ---------- the worker loop in compaction mode, no expiry ---------- *)
 
-Definition cfg (R : N) : wcfg := mkCfg R true 0 0.
+Definition cfg (R : N) : wcfg := mkCfg R true 0 0 [].
 
 Definition stepA (R : N) (x : rec) (s : wst) : dst :=
   if beqb (rkey x) (w_pk s) && (0 <? w_pr s)
